@@ -140,6 +140,14 @@ func NowNs() int64 { return 0 }
 func And(a, b bool) bool { return a && b }
 func Or(a, b bool) bool  { return a || b }
 
+// Ite selects a or b without forking the path.
+func Ite(c bool, a, b uint64) uint64 {
+	if c {
+		return a
+	}
+	return b
+}
+
 // InRange reports lo <= c <= hi without forking.
 func InRange(c, lo, hi byte) bool { return And(c >= lo, c <= hi) }
 
